@@ -2,3 +2,4 @@ pub mod c01_load;
 pub mod c19_pgp;
 pub mod c02_total;
 pub mod c04_c05_session;
+pub mod c08_lossy;
